@@ -27,6 +27,7 @@ Section ExprInd.
   Hypothesis HRule : forall i, P (ERule i).
   Hypothesis HExt : forall i, P (EExt i).
   Hypothesis HBound : forall i, P (EBound i).
+  Hypothesis HDouble : forall f, P (EDouble f).
 
   Fixpoint expr_ind' (e : expr) : P e :=
     let list_ind := fix go (l : list expr) : Forall P l :=
@@ -36,6 +37,7 @@ Section ExprInd.
       end in
     match e with
     | EInt z => HInt z
+    | EDouble f => HDouble f
     | EBytes b => HBytes b
     | EBool b => HBool b
     | EFilesize => HFilesize
